@@ -28,6 +28,8 @@ type c05Spec struct {
 	Text   bool   `json:"text,omitempty"` // numerically unstable N transport: the text-valued status variables get filled
 	Reuse  bool   `json:"reuse,omitempty"` // files on disk (the library's own writer) in a result folder that holds a longer earlier run
 	Lead   int    `json:"lead,omitempty"`  // number of leading columns bound to text variables that stay empty (in all three files)
+	Sep    string `json:"sep,omitempty"`   // separator character of the CSV style ("" = comma)
+	Fill   string `json:"fill,omitempty"`  // fill character of the fixed-width style ("" = blank)
 }
 
 var c05Starts = []string{"2003-12-30", "2003-12-31", "2004-01-01", "2004-02-27", "2004-02-28", "2004-02-29", "2004-03-01", "2003-02-28", "2003-03-01", "2004-06-15", "2001-09-29"}
@@ -58,6 +60,11 @@ func c05Specs(tier string, seed int) []c05Spec {
 						sp := c05Spec{Start: s, Len: l, Annual: a, K: k, Style: style, Fmt: "DateDElong", Cols: i % 2}
 						if i%7 == 0 {
 							sp.Fmt = []string{"DateENlong", "DateDEshort", "DateENshort"}[(i/7)%3]
+						}
+						// separator and fill characters rotate (ASCII and beyond)
+						if i%5 == 0 {
+							sp.Sep = []string{";", "\t", "¦", "|", "§", "€"}[(i/5)%6]
+							sp.Fill = []string{"_", "·", ".", "°"}[(i/5)%4]
 						}
 						out = append(out, sp)
 					}
@@ -144,9 +151,18 @@ var c05AllKinds = []c05Col{
 	{"C1:21", "%s"}, {"WG:3:0", "%s"}, {"TSOIL:1:22", "%s"}, {"PKT", "%s"}, {"REGEN:367", "%.3f"},
 }
 
-func c05Config(cols []c05Col, width int) string {
+func c05Config(cols []c05Col, width int, sepFill ...string) string {
 	var b strings.Builder
-	b.WriteString("FillCharacter: ' '\nSeperatorCharacter: ','\nNaValue: n.a.\nDataColumns:\n")
+	sep, fill := ",", " "
+	if len(sepFill) == 2 {
+		if sepFill[0] != "" {
+			sep = sepFill[0]
+		}
+		if sepFill[1] != "" {
+			fill = sepFill[1]
+		}
+	}
+	fmt.Fprintf(&b, "FillCharacter: %q\nSeperatorCharacter: %q\nNaValue: n.a.\nDataColumns:\n", fill, sep)
 	for _, cdef := range cols {
 		parts := strings.Split(cdef.name, ":")
 		fmt.Fprintf(&b, "- Format: '%s'\n  DataAlignment: right\n  Width: %d\n  VariableName: %s\n", cdef.format, width, parts[0])
@@ -227,7 +243,14 @@ func c05Run(raw json.RawMessage, c *mc.Ctx) {
 		dcols, ycols, ccols = pre(dcols, "C1NotStable", "C1NotStableErr"), pre(ycols, "C1NotStableErr", "C1NotStable"), pre(ccols, "NotStableErr", "NotStableErr")
 	}
 	const width = 16
-	p.DailyCols, p.YearlyCols, p.CropCols = c05Config(dcols, width), c05Config(ycols, width), c05Config(ccols, width)
+	p.DailyCols, p.YearlyCols, p.CropCols = c05Config(dcols, width, sp.Sep, sp.Fill), c05Config(ycols, width, sp.Sep, sp.Fill), c05Config(ccols, width, sp.Sep, sp.Fill)
+	sepCh, fillCh := ",", " "
+	if sp.Sep != "" {
+		sepCh = sp.Sep
+	}
+	if sp.Fill != "" {
+		fillCh = sp.Fill
+	}
 	// weather: from 3 days before the start to well after the (possibly extended) end
 	lastAnn := annualIn(end.Year())
 	wend := end
@@ -306,7 +329,7 @@ func c05Run(raw json.RawMessage, c *mc.Ctx) {
 	fieldsOf := func(line string, ncols int, what string, idx int) []string {
 		c.Eval(1)
 		if sp.Style == 1 {
-			f := strings.Split(line, ",")
+			f := strings.Split(line, sepCh)
 			if len(f) != ncols {
 				c.Violate(fmt.Sprintf("field-count %s CSV", what), fmt.Sprintf("%s: %s record %d has %d fields, %d columns configured: %q", label, what, idx, len(f), ncols, line), nil)
 			}
@@ -315,14 +338,15 @@ func c05Run(raw json.RawMessage, c *mc.Ctx) {
 			}
 			return f
 		}
+		trim := func(x string) string { return strings.TrimSpace(strings.Trim(x, fillCh)) }
 		if n := utf8.RuneCountInString(line); n != ncols*(width+1) {
 			c.Violate(fmt.Sprintf("field-count %s fixed-width", what), fmt.Sprintf("%s: %s record %d is %d characters long, %d columns of width %d (+1) configured: %q", label, what, idx, n, ncols, width, line), nil)
-			return []string{strings.TrimSpace(line[:min(len(line), width)])}
+			return []string{trim(string([]rune(line)[:min(utf8.RuneCountInString(line), width)]))}
 		}
 		var f []string
 		r := []rune(line)
 		for i := 0; i < ncols; i++ {
-			f = append(f, strings.TrimSpace(string(r[i*(width+1):(i+1)*(width+1)])))
+			f = append(f, trim(string(r[i*(width+1):(i+1)*(width+1)])))
 		}
 		return f
 	}
